@@ -426,13 +426,13 @@ def avalon_ops(draw, cfg, max_ops=8, over_max=False, align=False):
         if align and n > 1:
             a -= a % ratio
         a += off
-        op = dict(kind=kind[0], addr=a, gap=draw(st.sampled_from([0, 0, 0, 1, 2, 5, 11])), wait=draw(st.integers(0, 3)) == 0)
+        op = dict(kind=kind[0], addr=a, gap=draw(st.one_of(st.just(0), st.integers(0, 12))), wait=draw(st.integers(0, 3)) == 3)
         if kind[0] == "w":
             op["data"] = [draw(st.integers(0, (1 << adw) - 1)) for _ in range(n)]
             allfull = draw(st.integers(0, 2)) > 0
             op["be"] = [full if (allfull or draw(st.booleans())) else draw(st.integers(0, full)) for _ in range(n)]
             gappy = draw(st.integers(0, 2)) == 0
-            op["gaps"] = [0] + [(draw(st.sampled_from([0, 0, 1, 2, 3, 5, 8, 13, 21])) if gappy else 0) for _ in range(n - 1)]
+            op["gaps"] = [0] + [(draw(st.one_of(st.just(0), st.integers(0, 8), st.integers(0, 24))) if gappy else 0) for _ in range(n - 1)]
             op["later"] = draw(st.sampled_from(["hold", "hold", "bc0", "junk"]))
         else:
             op["n"] = n
